@@ -736,6 +736,18 @@ fn main() {
     for b in bad.into_inner().unwrap() {
         run.inconclusive(format!("reference run unusable: {b}"));
     }
+    if run.replay.is_none() {
+        let mut cm = serde_json::Map::new();
+        for op in ops.iter().filter(|o| o.kind == "sign" || o.kind == "hashflow") {
+            if let Ok((_, m)) = reference(op) {
+                cm.insert(op.name(), json!({"store_blanked_in_place": m[0], "store_removed_by_sdk": m[1]}));
+                if !m[0] && !m[1] {
+                    run.note(format!("{}: output bytes outside the manifest are not compared (no reproducible method)", op.name()));
+                }
+            }
+        }
+        run.extra("content_comparison_methods", serde_json::Value::Object(cm));
+    }
 
     // ---- (a) chunking ---------------------------------------------------------------------------------
     let mut rng = vh::rng::SplitMix64::new(run.seed ^ 0xC35);
